@@ -13,12 +13,15 @@ import (
 )
 
 func init() {
-	register("C09", "real connections (flood control off) with 1..32 concurrent senders - user goroutines, a foreground handler and background handlers - each issuing 1..2000 lines that carry (sender, sequence number, pseudo-random payload), plus the internal PING handler as one more sender (the server pings up to 150 times while the others are busy), the server end reading fast, slowly (gated writes) or in bursts, GOMAXPROCS 1..16; the wire transcript is parsed back, payload bytes are compared exactly, and Spec.Send (per-sender order, once each, complete) is evaluated by the driver on the (sender, seq) sequence; non-trivial = >=2 senders; distinct by (senders, lines, pacing, seed)", c09)
+	register("C09", "real connections (flood control off) with 1..32 concurrent senders - user goroutines, a foreground handler and background handlers - each issuing 1..2000 lines that carry (sender, sequence number, pseudo-random payload of 1..40 bytes, every 23rd one of 500..1700 bytes), plus the internal PING handler as one more sender (the server pings up to 150 times while the others are busy), the server end reading fast, slowly (gated writes) or in bursts, GOMAXPROCS 1..16; the wire transcript is parsed back, payload bytes are compared exactly, and Spec.Send (per-sender order, once each, complete) is evaluated by the driver on the (sender, seq) sequence; non-trivial = >=2 senders; distinct by (senders, lines, pacing, seed)", c09)
 }
 
 func c09Payload(sender, seq int) string {
 	// deterministic payload with awkward but legal bytes (no CR/LF/NUL)
 	n := (sender*7+seq*13)%40 + 1
+	if (sender+seq)%23 == 5 { // now and then a line longer than the 512 bytes of the RFC: still byte for byte
+		n = 500 + (sender*131+seq*17)%1200
+	}
 	b := make([]byte, n)
 	x := uint32(sender*2654435761 + seq*40503 + 12345)
 	for i := range b {
